@@ -254,19 +254,49 @@ struct Parent {
     id: u32,
 }
 
+/// "exec_lock": the task wakers behave like those of an executor that guards a task's state with a lock E: the executor
+/// holds E while it polls the task (here: while the deque is polled), and `wake` takes E to mark the task as notified - a
+/// wake from inside the poll (the thread already holds E) just sets the flag.  Perfectly ordinary executor code; it only
+/// requires of the deque that it does not call `wake` while holding a lock its own `poll` needs.
+static EXEC_LOCK_ON: std::sync::atomic::AtomicBool = std::sync::atomic::AtomicBool::new(false);
+static EXEC_LOCK: std::sync::atomic::AtomicBool = std::sync::atomic::AtomicBool::new(false);
+thread_local! {
+    static HOLDS_EXEC_LOCK: std::cell::Cell<bool> = const { std::cell::Cell::new(false) };
+}
+
+fn exec_lock_acquire() {
+    sched::block_until("executor task lock", || EXEC_LOCK.compare_exchange(false, true, Ordering::SeqCst, Ordering::SeqCst).is_ok());
+    HOLDS_EXEC_LOCK.with(|h| h.set(true));
+}
+
+fn exec_lock_release() {
+    HOLDS_EXEC_LOCK.with(|h| h.set(false));
+    EXEC_LOCK.store(false, Ordering::SeqCst);
+}
+
+fn parent_wake(id: u32) {
+    sched::point("pwake");
+    let locked = EXEC_LOCK_ON.load(Ordering::SeqCst) && !HOLDS_EXEC_LOCK.with(std::cell::Cell::get);
+    if locked {
+        exec_lock_acquire();
+    }
+    sched::emit(json!({"ev":"pwake","p":id}));
+    if locked {
+        exec_lock_release();
+    }
+}
+
 impl Wake for Parent {
     fn wake(self: Arc<Self>) {
         self.wake_by_ref();
     }
     fn wake_by_ref(self: &Arc<Self>) {
-        sched::point("pwake");
-        sched::emit(json!({"ev":"pwake","p":self.id}));
+        parent_wake(self.id);
     }
 }
 
 fn sp_wake<const ID: u32>(_p: *const ()) {
-    sched::point("pwake");
-    sched::emit(json!({"ev":"pwake","p":ID}));
+    parent_wake(ID);
 }
 fn sp_clone<const ID: u32>(p: *const ()) -> std::task::RawWaker {
     std::task::RawWaker::new(p, sp_vtable(ID))
@@ -341,6 +371,9 @@ fn deque_task(stim: Value, ctx: Arc<RunCtx>) {
     } else {
         (1..=3).map(|id| Waker::from(Arc::new(Parent { id }))).collect()
     };
+    let exec_lock = stim["exec_lock"].as_bool().unwrap_or(false);
+    EXEC_LOCK_ON.store(exec_lock, Ordering::SeqCst);
+    EXEC_LOCK.store(false, Ordering::SeqCst);
     let mut ops: Vec<Value> = stim["dops"].as_array().cloned().unwrap_or_default();
     if ops.last().map(|o| o["op"].as_str() != Some("drop")).unwrap_or(true) {
         ops.push(json!({"op":"drop"}));
@@ -365,18 +398,32 @@ fn deque_task(stim: Value, ctx: Arc<RunCtx>) {
             }
             "poll" => {
                 let w = &parents[(p as usize - 1).min(2)];
-                match d.poll(&mut Context::from_waker(w)) {
+                if exec_lock {
+                    exec_lock_acquire();
+                }
+                let r = match d.poll(&mut Context::from_waker(w)) {
                     Poll::Ready(()) => ("ready", 0),
                     Poll::Pending => ("pending", 0),
+                };
+                if exec_lock {
+                    exec_lock_release();
                 }
+                r
             }
             "poll_front" | "poll_back" => {
                 let w = &parents[(p as usize - 1).min(2)];
-                match d.poll_end(name == "poll_front", &mut Context::from_waker(w)) {
+                if exec_lock {
+                    exec_lock_acquire();
+                }
+                let r = match d.poll_end(name == "poll_front", &mut Context::from_waker(w)) {
                     Poll::Ready(Some(o)) => ("some", take_out(o)),
                     Poll::Ready(None) => ("none", 0),
                     Poll::Pending => ("pending", 0),
+                };
+                if exec_lock {
+                    exec_lock_release();
                 }
+                r
             }
             "pop_front" | "pop_back" => match d.pop(name == "pop_front") {
                 Some(o) => ("some", take_out(o)),
